@@ -567,7 +567,7 @@ fn build_function(
     while function
         .arguments
         .iter()
-        .any(|a| matches!(a, Argument::Field(name, _) if *name == local_name))
+        .any(|a| matches!(a, Argument::Field(name, _) if ident_fragment(name) == local_name))
     {
         local_name.push('_');
     }
